@@ -289,6 +289,11 @@ func H_Spot_Execute() {
 			vrf.Assert(s.w.BalOf(owner, atom).Equal(wal), "C20 execute: untouched unless the trigger condition holds (wallet)")
 		} else {
 			vrf.Cover("failed")
+			// (fixed, see known_findings.txt) the escrow had gone to the owner before the swap failed
+			vrf.Assert(s.w.BalOf(esc, atom).Equal(o.OrderAmount.Amount), "C20 execute: a failed execution attempt leaves the escrow in place")
+			_, cerr := s.srv.CancelSpotOrder(s.ctx, &tstypes.MsgCancelSpotOrder{OwnerAddress: owner.String(), OrderId: o.OrderId})
+			vrf.Assert(cerr == nil, "C20 execute: the owner can still cancel after a failed execution attempt")
+			vrf.Assert(s.w.BalOf(owner, atom).Equal(wal.Add(o.OrderAmount.Amount)), "C20 execute: cancelling after a failed attempt returns the full escrow")
 		}
 		return
 	}
@@ -577,4 +582,61 @@ func H_Isolation_CancelThenCreate() {
 	vrf.Assert(s.w.BalOf(owner, denom).Equal(a1.Add(a3)), "C20 isolation: the owner gets back exactly what he escrowed, no more")
 	vrf.Assert(cancel(other, id2) == nil, "C20: the other owner can still cancel his order")
 	vrf.Assert(s.w.BalOf(other, denom).Equal(a2), "C20 isolation: the other owner gets his full escrow back")
+}
+
+// One execution request naming two pending spot orders of different owners: each order is settled (or left alone) on
+// its own - what one order's execution does never touches the other order's escrow, record or owner.
+//
+//vrf:cover done both-executed none-executed
+//vrf:bound 2 pending limit-sell orders (consecutive ids) of different owners with symbolic amounts and prices, one MsgExecuteOrders by a third party naming both; market prices arbitrary (incl. absent), swap fails or succeeds
+func H_Spot_Execute_TwoOrders() {
+	s := setup()
+	a1, a2 := vrf.Int("orderAmount"), vrf.Int("orderAmount2")
+	r1, r2 := vrf.Dec("orderPrice"), vrf.Dec("orderPrice2")
+	vrf.Assume(a1.IsPositive())
+	vrf.Assume(a2.IsPositive())
+	vrf.Assume(r1.IsPositive())
+	vrf.Assume(r2.IsPositive())
+	third := sdk.AccAddress([]byte("executor____________"))
+	mk := func(who sdk.AccAddress, amt sdkmath.Int, rate sdkmath.LegacyDec) tstypes.SpotOrder {
+		o := tstypes.SpotOrder{OrderType: tstypes.SpotOrderType_LIMITSELL, OrderPrice: tstypes.OrderPrice{BaseDenom: atom, QuoteDenom: usdc, Rate: rate},
+			OrderAmount: sdk.Coin{Denom: atom, Amount: amt}, OwnerAddress: who.String(), OrderTargetDenom: usdc,
+			Date: &tstypes.Date{Height: 5, Timestamp: 500}}
+		o.OrderId = s.k.AppendPendingSpotOrder(s.ctx, o)
+		s.w.SetBal(o.GetOrderAddress(), atom, amt)
+		return o
+	}
+	o1, o2 := mk(owner, a1, r1), mk(other, a2, r2)
+	_, err := s.srv.ExecuteOrders(s.ctx, &tstypes.MsgExecuteOrders{Creator: third.String(), SpotOrderIds: []uint64{o1.OrderId, o2.OrderId}})
+	if err != nil {
+		return // failed transaction: rolled back by baseapp
+	}
+	vrf.Cover("done")
+	executed := 0
+	for _, q := range []struct {
+		o   tstypes.SpotOrder
+		who sdk.AccAddress
+		amt sdkmath.Int
+	}{{o1, owner, a1}, {o2, other, a2}} {
+		rec, pending := s.k.GetPendingSpotOrder(s.ctx, q.o.OrderId)
+		esc := s.w.BalOf(q.o.GetOrderAddress(), atom)
+		if pending {
+			vrf.Assert(rec.OwnerAddress == q.who.String() && rec.OrderAmount.Amount.Equal(q.amt), "C20 execute(two): a pending order's record is untouched by the other order's execution")
+			vrf.Assert(esc.Equal(q.amt), "C20 execute(two): a pending order's escrow still holds exactly its amount")
+			vrf.Assert(s.w.BalOf(q.who, usdc).IsZero(), "C20 execute(two): the owner of an order that was not executed receives nothing")
+		} else {
+			executed++
+			vrf.Assert(esc.IsZero(), "C20 execute(two): an executed order's escrow is spent")
+			vrf.Assert(s.w.BalOf(q.who, usdc).Equal(s.amm.out), "C20 execute(two): the output of an order goes to its own owner, once")
+		}
+		vrf.Assert(s.w.BalOf(q.who, atom).IsZero(), "C20 execute(two): nothing of the sold asset reaches an owner's wallet")
+	}
+	vrf.Assert(s.amm.swaps == executed, "C20 execute(two): one swap per executed order")
+	vrf.Assert(s.w.BalOf(third, atom).IsZero() && s.w.BalOf(third, usdc).IsZero(), "C20 execute(two): the executor gains nothing")
+	if executed == 2 {
+		vrf.Cover("both-executed")
+	}
+	if executed == 0 {
+		vrf.Cover("none-executed")
+	}
 }
